@@ -13,16 +13,30 @@ effect (writes + allocations) and a declared write footprint (`footprint`): noth
 evaluation op; for `fit m descs args` the mutable objects reachable from `m` and from the
 caller's fit descriptions `descs` (the code fills them in place: `_check_and_fill_fit_desc`).
 
-Clause → theorem
+Clause → theorem. Every theorem is CONDITIONAL: it is about the heap model and takes a footprint
+certificate as hypothesis (`Admissible s op e`: the write set of the op lies inside its declared
+footprint; for getters freshness of the result). None of them asserts that a Python entry point is
+pure — that is what the harness measures for every executed op (observed write set → `admissibleB`,
+`freshResultB`, …, proven sound below) and what the property oracle checks on the real objects.
   evaluation leaves models and caller arrays unchanged      eval_frame, eval_frame_reach
-  repeating a deterministic evaluation gives the same        repeat_eval_same_result  (given: the result
-                                                             reads only the reachable sub-store — observed)
-  fitting one model never changes another                    fit_frame_disjoint, fit_frame_disjoint_reach,
+                                                             (GIVEN op.isPure and Admissible, i.e. the op
+                                                             wrote nothing: the whole reachable sub-store
+                                                             — contents and shape — is the old one)
+  repeating a deterministic evaluation gives the same        repeat_eval_same_result  (GIVEN additionally: the
+                                                             result reads only the reachable sub-store — observed)
+  fitting one model never changes another                    fit_frame_disjoint, fit_frame_disjoint_reach
+                                                             (GIVEN Admissible and no shared MUTABLE object),
     … for every interleaving of any length                   interleaving_frame (per-step separation, as measured),
                                                              interleaving_static (initial separation + no capture)
-  getter results share no mutable state                      getter_fresh
-  conditional fit keeps its template                         cond_fit_keeps_template, cond_fit_copies_fresh,
-                                                             cond_fit_nocopy_changes_template (counter-model)
+  getter results share no mutable state                      getter_fresh (GIVEN hfresh2: every mutable object of
+                                                             the second result was allocated by the second call —
+                                                             measured against a gc snapshot)
+  conditional fit keeps its template                         cond_fit_keeps_template, cond_fit_copies_fresh
+                                                             (about the model function `condFit true`, the deep-copy
+                                                             loop of ConditionalDistribution.fit; tied to the code by
+                                                             the `condfit` correspondence on every fit),
+                                                             cond_fit_nocopy_changes_template (counter-model
+                                                             `condFit false`: the variant without the copy)
   the Boolean checks the driver evaluates on the harness'    reachList_sound, closedB_complete, wfB_sound, liveB_sound,
   id()-graphs imply the hypotheses above                     admissibleB_sound, effWFB_sound, noCaptureB_sound,
                                                              touchedB_false_sound, sharedMut_nil_sound,
@@ -30,7 +44,11 @@ Clause → theorem
 
 What is *observed* and not proven: that each real entry point has the effect shape the footprint
 demands (the harness measures the write set of every executed op and the driver checks
-`admissibleB`), and that separately built models are disjoint (`sharedMut = []`, measured).
+`admissibleB`), that separately built models are disjoint (`sharedMut = []`, measured), that
+results read nothing but the reachable store (evaluated twice), and — outside the heap model's
+alphabet of roots until the harness adds them as roots — that the caller's semantics / par_rename /
+limits / levels arguments and virocon's module-level state (globals, class attributes, default
+argument values) are left alone by evaluations.
 -/
 import VirVerif.Model.Heap
 
